@@ -9,24 +9,23 @@ import gens_C11
 from props import common
 
 THEOREMS = [
-    'Props/C11.v: C11_lex_case (ASCII re-casing: same token types and boundaries)',
-    'C11_lex_ws_run (a run of blank-class characters / LF / CR LF at a token boundary is lexed into one token per '
-    'unit and the rest of the text is lexed as after a single blank: the suffix is independent of the run)',
-    'C11_multiword_fin (finite family, 28160 spellings: the 39 multi-word keywords with every inner-whitespace run '
-    'of length <= 2 over {blank, tab, LF, CRLF}, upper and lower case, are ONE token of the rule type)',
-    'C11_split / C11_split_any_support (guarded skeleton relation => the same statements over significant tokens; '
-    'guard = END IF|FOR|WHILE and GO spelled as the tables compare them, runs before a single-line comment agree '
-    'on containing a line break)',
-    'C11_case_split (text level: re-casing inside keyword tokens other than GO => same token types, same statements)',
-    'C11_group_matching / _pass (all _group_matching instances whose M_OPEN/M_CLOSE contain no whitespace -- '
-    'Parenthesis, SquareBrackets, Case, Begin: equal shapes in => equal shapes out)',
-    'C11_group_matching_guarded (If, For: under the guard that corresponding leaves are classified alike)',
-    'C11_split_then_match (skeleton-related streams => shape-equal trees after a bracket-matching pass)',
-    'C11_*_refuted x9: model-level witnesses (ORDER BY / UNION ALL / END IF / END LOOP inner whitespace, AS case, GO '
-    'case, END IF in the splitter, comment after terminator, GO n lexing)',
+    'Props/C11.v, C11g.v, C11w.v (all closed under the global context; coq/ASSUMPTIONS.txt):',
+    'KEYWORD SPELLING, unbounded, no guard: C11_lex_case; C11_parse_case_full / C11_parse_case_text_full (ASCII case: lexer, '
+    'splitter, all 25 passes, get_type); C11_parse_kwspell (case AND white space inside compound keywords, from related token '
+    'streams); C11g_callbacks_case_safe (IR check over the regenerated pass table)',
+    'WHITE-SPACE TOKENS RE-SPELLED ONE FOR ONE (same number of tokens), unbounded: C11w_parse_wsval, C11w_group, '
+    'C11w_split_pointwise, C11w_get_type, C11w_callbacks_ws_safe',
+    'WHITE-SPACE RUNS OF ANY LENGTH, from the text, unbounded: C11_first_match_run / C11_first_token_run (one match attempt), '
+    'C11_lex_run_all (whole lexer; texts without quotes, backtick, # $ - / [), C11_text_split_run (statements), '
+    'C11_text_get_type_run (type of the first statement); generic: C11_run_sim, C11_lex_all_generic; table checks C11_run_table, '
+    'cur_table_ok',
+    'C11_lex_ws_run (a run at a token boundary lexes to one token per unit), C11_multiword_fin (finite family), C11_split / '
+    'C11_split_any_support (skeleton relation => same statements), C11_group_matching (bracket matching commutes with shapes)',
+    'refutations: C11_comment_after_semi_refuted, C11_assignment_run_refuted (two `:=`: the tree depends on the number of '
+    'white-space tokens), trailing comment; witnesses of seven repaired defects (*_same)',
 ]
-TRUSTED = ['NOT proved, covered by the metamorphic oracle only: the look-ahead of tokens BEFORE a whitespace run, the '
-           'generic _group driver and the 19 ad-hoc passes, get_type (not modelled), the pipeline as a whole']
+TRUSTED = ['NOT proved, covered by the metamorphic oracle only: the GROUPING layer under white-space runs of a different LENGTH '
+           '(a different number of tokens), and texts with literals / comments at the lexer level under run re-spelling']
 ASSUMPTIONS = ['respellings are restricted to runs over {blank, tab, LF, CRLF}; pairs whose whitespace slots do not '
                'align with token boundaries (a slot swallowed by a comment) are discarded and counted']
 
